@@ -208,8 +208,9 @@ def parser_model_check(ctx, cases, harness=None, c_replies=None, suite=None):
         def bad(key, what):
             mism.append({'key': key + ':' + root, 'what': '%s; input %r' % (what, data[:120]), 'replay': replay})
         if any(int(x) >= 2 ** 64 for x in LONG_DIGITS.findall(data)):
-            # digit runs denoting values >= 2^64: where the 64-bit wrap is detected is C19's subject (Scanner.integer keeps the pinned test)
-            stats['long_digit_runs'] += 1; continue
+            # digit runs denoting values >= 2^64 are compared like everything else since Scanner.integer carries the overflow test of
+            # /repo HEAD (x > (UINT64_MAX - d) / 10); only counted here
+            stats['long_digit_runs'] += 1
         if m[:1] == ['STOP']:
             if m[1] == '2': stats['outside'] += 1
             else: bad('model-stop-%s' % m[1], 'parser model returned STOP %s (read outside the input / out of fuel)' % m[1])
